@@ -1,6 +1,6 @@
 """C18 - gwb-grid writes the requested mesh and the library's values at its nodes (filter + node values; grid generation is not applicable, see DESIGN.md)."""
 OBLIGATIONS = [
-    dict(id='C18.filter', harness='c18.cc', entry='h_c18_filter', mode='fp', cases=[(1, 4, 0), (2, 4, 0)], cases_thorough=[(1, 4, 0), (2, 4, 0), (2, 5, 1), (2, 6, 2)], time_cap=2400, tus=['c18.cc'], native=False, cflags=['-I/repo/include/vtu11'],
+    dict(id='C18.filter', harness='c18.cc', entry='h_c18_filter', mode='fp', cases=[(1, 4, 0), (2, 4, 0)], cases_thorough=[(1, 4, 0), (2, 4, 0), (2, 5, 1), (2, 6, 2)], time_cap=2400, tus=['c18.cc'], native=False, cflags=['-I' + __import__('build').REPO + '/include/vtu11'],
          expect=['the filtered mesh has exactly the selected cells', 'all data sets are kept', 'every data set has one entry (three for the velocity) per output node', 'cell types and offsets are consistent, cells keep their order',
                  'cells reference existing output nodes', 'every output node carries the coordinates and all data values of its source node', 'end'],
          bounds='dim 2, 1..2 cells (3 thorough) over 4..8 nodes, connectivity patterns with shared / repeated / disjoint nodes (concrete per case), tags -1..2, 5 data sets, arbitrary include flags', stubs=[], assumes=['node indices in range, tags in -1..2'],
